@@ -25,6 +25,14 @@ TXB = 'genesis: 3 funded accounts (symbolic balances < 2^100), validators A0,A1 
 
 CHECKS = {
     "SMOKE": {"quick": [{"name": NODE + "ZZ_Smoke", "reach": ["smoke end"]}], "assumptions": []},
+    "C17": {
+        "quick": [
+            {"name": NODE + "ZZ_C17_E12", "reach": ["E12 succeeded", "E12 failed", "E12 end", "E12 native tx to contract"], "bound": "contracts deployed in block 3: R (pays the funded account X one unit, then REVERTs) and P in {STOP | call(third,1) STOP | call(third,1) REVERT | call(third,1) INVALID} with third in {X, R}; block 4: one transaction by the proposer or another account: call of P with symbolic value, plain transfer to P, a deployment with value, or a set-document transaction addressed to P; gas limit symbolic in [10,20999] or [300000,2^24]; then a read-only call at the committed height", "validate": 40},
+        ],
+        "bounds": "4 hand-assembled programs, call depth <= 3, one contract transaction",
+        "outside": "NOT CLAIMED: equivalence with the reference EVM for every program (return data, logs, storage, code, exact gas) - go-ethereum's interpreter, trie and big.Int code are behind the A-EVM stub; only the repository's glue (StateDBWrapper copy-in/copy-out and revert bookkeeping, EVMCtrler.ExecuteTrx, routing in runTrx/postRunTrx, callVM) is executed symbolically, for the call sequences these programs produce",
+        "assumptions": A_COMMON + A_STORE + ["A-EVM: state.StateDB = journalled (balance, nonce) map with snapshot/revert, access list; core.ApplyMessage per go-ethereum v1.10.23 state_transition.go with the interpreter replaced by the semantics of the 4 programs; gas left is an arbitrary value <= limit - intrinsic", "A-SIG", "A-HASH"],
+    },
     "C18": {
         "quick": [
             {"name": LEDGER + "ZZ_C18_Seq3", "reach": ["C18 end"], "bound": "2 keys x 3 operations out of {SetFinality,GetFinality,DelFinality,Set,Get,Del,Read,Commit,ImmutableLedgerAt.Read,Close+reopen}, symbolic values, then a full sweep of all views/versions and a final Commit"},
@@ -73,14 +81,16 @@ CHECKS = {
     },
     "C04": {
         "quick": [
+            {"name": NODE + "ZZ_C17_E12", "reach": ["E12 succeeded", "E12 failed"], "bound": "contract paths: one contract call / transfer to a contract / deployment / set-document addressed to a contract over the 4 modelled programs (see C17)", "validate": 10},
             {"name": NODE + "ZZ_C04_N12", "reach": ["N12 success", "N12 failure"] + OK_ALL, "bound": TXB + "; on success the same bytes are delivered again in the same block or in the next block"},
         ],
         "bounds": "one transaction + one replay",
-        "outside": "contract transactions (nonce handled inside the EVM: decided under C17 when registered); exactly-once over arbitrary histories follows from N1 (a nonce only ever rises by one on success) and is cross-checked by the replay",
+        "outside": "contract programs other than the 4 modelled ones (A-EVM); exactly-once over arbitrary histories follows from N1 (a nonce only ever rises by one on success) and is cross-checked by the replay",
         "assumptions": A_COMMON + A_STORE + ["A-SIG", "A-HASH", "A-GOV"],
     },
     "C05": {
         "quick": [
+            {"name": NODE + "ZZ_C17_E12", "reach": ["E12 succeeded", "E12 failed"], "bound": "contract paths: one contract call / transfer to a contract / deployment / set-document addressed to a contract over the 4 modelled programs (see C17)", "validate": 10},
             {"name": NODE + "ZZ_C05_A1", "reach": ["A1 failure", "A1 success"] + ["rejected " + t for t in ("transfer", "staking", "unstaking", "proposal", "voting", "setdoc", "withdraw")], "bound": TXB + "; after a failing tx every balance/nonce/name/doc/code marker of 5 accounts, bonded and unbonding stakes, rewards, the tracked proposal and the fee sum are compared, then an observer transfer A2->A1 with symbolic amount runs in the same block"},
         ],
         "bounds": "one failing transaction of a native type (every error return reachable from DeliverTx for these inputs) + one observer transaction",
@@ -89,10 +99,11 @@ CHECKS = {
     },
     "C16": {
         "quick": [
+            {"name": NODE + "ZZ_C17_E12", "reach": ["E12 succeeded", "E12 failed"], "bound": "contract paths: one contract call / transfer to a contract / deployment / set-document addressed to a contract over the 4 modelled programs (see C17)", "validate": 10},
             {"name": NODE + "ZZ_C16_F12", "reach": ["F12 success", "F12 failure"] + OK_ALL, "bound": TXB + "; EndBlock with proposer A1"},
         ],
         "bounds": "one native transaction + block end",
-        "outside": "contract transactions (gas used by the EVM: C17); a governance price change between blocks (C15/G6 shows parameters switch only at Commit)",
+        "outside": "exact gas metering of the EVM (A-EVM: gas left is arbitrary); a governance price change between blocks (C15/G6 shows parameters switch only at Commit)",
         "assumptions": A_COMMON + A_STORE + ["A-SIG", "A-HASH", "A-GOV"],
     },
     "C06": {
